@@ -2,7 +2,8 @@
 (* Trace specification for C06.  One trace = one materialised site (content tree + .Links   *)
 (* entries + abstracts + search item) under one configuration (abstract_headers,            *)
 (* abstract_entries, advertised port, handler list), observed through every protocol view:  *)
-(*   view    directory `sel` (with/without a trailing slash) fetched through p: req,         *)
+(*   view    directory `sel` (with/without a trailing slash; HTTP-family views also with a  *)
+(*           browser's header block, hdr) fetched through p: req,                           *)
 (*           response class cls, object kind obj, MIME type mime, lexed entries             *)
 (*   object  the same for a non-directory selector                                          *)
 (*   search  the user of p types s into the search item t of listing `base`: requests       *)
@@ -43,9 +44,10 @@ Learn(e) == IF Ref(e.sel).obs.mime = "" /\ ObjAgree(Ref(e.sel).obs, Obs(e))
 
 \* how a client of p asks for selector sel (a link to it, as p renders links), resp. for the root menu
 ReqOk(e) ==
-    IF e.sel = "/" /\ ~e.slash THEN e.req = Follow(e.p, RootTarget(e.p), "", "")
-    ELSE e.req = Follow(e.p, Target(e.p, [type |-> "1", name |-> "x", sel |-> e.sel \o (IF e.slash THEN "/" ELSE ""),
-                                           host |-> "", port |-> 0]), RootRef(e.p), "")
+    (e.hdr => e.p \in {"H", "HS", "W"}) /\
+    IF e.sel = "/" /\ ~e.slash THEN e.req = WithHeaders(Follow(e.p, RootTarget(e.p), "", ""), e.hdr)
+    ELSE e.req = WithHeaders(Follow(e.p, Target(e.p, [type |-> "1", name |-> "x", sel |-> e.sel \o (IF e.slash THEN "/" ELSE ""),
+                                                      host |-> "", port |-> 0]), RootRef(e.p), ""), e.hdr)
 
 EntNamed(n) == {i \in 1..Len(Ents) : Ents[i].name = n}
 EntOf(n) == LET x == Ents[CHOOSE i \in EntNamed(n) : TRUE] IN
